@@ -396,6 +396,8 @@ class Histogram1D(ObjectWithBinning, HistogramBase):
             return None
         if isinstance(weight, np.generic):
             weight = weight.item()  # (Narrow numpy types would be squared in their own range)
+        if isinstance(value, np.generic):
+            value = value.item()  # (Also in the statistics)
         weight2 = weight**2  # Whatever can fail, fails before anything is changed
         self._coerce_dtype(type(weight))
         if self._binning.is_adaptive():
